@@ -15,6 +15,7 @@ import (
 
 // RevCli is the reverse proxy the server builds per connection.
 type RevCli struct {
+	Count  func(ctx context.Context, n int) (<-chan int, error)
 	WhoAmI func(ctx context.Context) (int, error)
 	Twice  func(ctx context.Context, x int) (int, error)
 }
@@ -38,6 +39,22 @@ func (r *RevHnd) Twice(ctx context.Context, x int) (int, error) {
 	r.twice++
 	r.mu.Unlock()
 	return 2 * x, nil
+}
+
+// Count streams id*100+0 .. id*100+n-1 back to the server: a reverse subscription.
+func (r *RevHnd) Count(ctx context.Context, n int) (<-chan int, error) {
+	out := make(chan int)
+	r.s.Go(fmt.Sprintf("revprod-%d", r.id), func() {
+		defer close(out)
+		for j := 0; j < n; j++ {
+			select {
+			case out <- r.id*100 + j:
+			case <-ctx.Done():
+				return
+			}
+		}
+	})
+	return out, nil
 }
 
 func (r *RevHnd) TwiceRan() bool {
@@ -119,6 +136,31 @@ func (h *RevSrv) Call2(ctx context.Context, tok int) (string, error) {
 	return fmt.Sprintf("tok%d-id%d-tw%d", tok, id, tw.v), nil
 }
 
+// CallSub subscribes to a stream served by the calling client and returns what it received.
+func (h *RevSrv) CallSub(ctx context.Context, tok int) (string, error) {
+	rc, ok := jsonrpc.ExtractReverseClient[RevCli](ctx)
+	if !ok {
+		return "no-reverse-client", nil
+	}
+	h.mu.Lock()
+	h.inRev[tok] = true
+	h.mu.Unlock()
+	defer func() {
+		h.mu.Lock()
+		delete(h.inRev, tok)
+		h.mu.Unlock()
+	}()
+	ch, err := rc.Count(ctx, 3)
+	if err != nil || ch == nil {
+		return fmt.Sprintf("tok%d-reverr(%v)", tok, err), nil
+	}
+	var got []int
+	for v := range ch {
+		got = append(got, v)
+	}
+	return fmt.Sprintf("tok%d-got%v", tok, got), nil
+}
+
 // CallN is Call as a notification: its outcome is recorded on the server.
 func (h *RevSrv) CallN(ctx context.Context, tok int) error {
 	v, _ := h.Call(ctx, tok)
@@ -129,9 +171,10 @@ func (h *RevSrv) CallN(ctx context.Context, tok int) error {
 }
 
 type FwdCli struct {
-	Call2 func(ctx context.Context, tok int) (string, error)
-	Call  func(ctx context.Context, tok int) (string, error)
-	CallN func(ctx context.Context, tok int) error `notify:"true"`
+	CallSub func(ctx context.Context, tok int) (string, error)
+	Call2   func(ctx context.Context, tok int) (string, error)
+	Call    func(ctx context.Context, tok int) (string, error)
+	CallN   func(ctx context.Context, tok int) error `notify:"true"`
 }
 
 // S-REV (DESIGN §3 C16).
@@ -162,6 +205,8 @@ func init() {
 			// answer to the reverse call (the server has received half a message)
 			add("m2-lossmid-fin", 1+b, map[string]int{"m": 2, "loss": 4})
 			add("m2-lossmid-rst", 1+b, map[string]int{"m": 2, "loss": 5})
+			// a reverse *subscription*: the server's handler receives a stream served by the client
+			add("m2-revsub", 1+b, map[string]int{"m": 2, "revsub": 1})
 			// two different reverse methods in flight together on each connection
 			add("m2-twometh", 1+b, map[string]int{"m": 2, "twometh": 1})
 			// only the first client registers the alias: the second one must reject the name
@@ -281,6 +326,10 @@ func revBody(s *vsched.Sched, p Param) {
 				if v != "no-reverse-client/<nil>" {
 					s.Violate("C16: a reverse client was present without the server option / over HTTP: %s", v)
 				}
+			case p.I("revsub") == 1:
+				if v != fmt.Sprintf("tok%d-got[%d %d %d]/<nil>", j+1, (j+1)*100, (j+1)*100+1, (j+1)*100+2) {
+					s.Violate("C16: forward call of client %d, whose handler subscribed to a stream served by that client, returned %s", j+1, v)
+				}
 			case twometh:
 				if v != fmt.Sprintf("tok%d-id%d-tw%d/<nil>", j+1, j+1, 2*(j+1)) {
 					s.Violate("C16: forward call of client %d, whose handler had two different reverse methods in flight, returned %s", j+1, v)
@@ -321,6 +370,11 @@ func revBody(s *vsched.Sched, p Param) {
 			if p.I("notify") == 1 {
 				err := clis[j].CallN(context.Background(), j+1)
 				obs.Set(fmt.Sprintf("ret-%d", j), "tok%d-id%d/%s", j+1, j+1, errClass(err))
+				return
+			}
+			if p.I("revsub") == 1 {
+				v, err := clis[j].CallSub(context.Background(), j+1)
+				obs.Set(fmt.Sprintf("ret-%d", j), "%s/%s", v, errClass(err))
 				return
 			}
 			if twometh {
